@@ -67,6 +67,17 @@ def gen_cases(ctx):
         else:
             lr = rng.sample(big, rng.randint(1, 14))
         cases.append((kind, which, c03.mk(rng, kind, ls), lr))
+    # LONG stored lists (33 .. 66 names): requested = the stored names with two interior ones exchanged / reversed / another
+    # long list sharing only the last name / a short list
+    huge = ["v%d" % i for i in range(66)]
+    for n in (33, 40, 66):
+        ls = huge[:n]
+        reqs = [list(reversed(ls)), ["w%d" % i for i in range(n - 1)] + [ls[-1]], ls[:3][::-1]]
+        lr = list(ls); i, j = rng.sample(range(1, n - 1), 2); lr[i], lr[j] = lr[j], lr[i]
+        reqs.append(lr)
+        for lr in reqs:
+            for kind, which in ((1, 1), (2, 1)) + (((2, 2),) if n <= 40 else ()):
+                cases.append((kind, which, c03.mk(rng, kind, ls), lr))
     # EVERY permutation of the stored names requested, four names (the requested SET equals the stored set; only the order
     # differs: first / last kept or moved, interior exchanged): quick = one stored order per requested permutation
     import itertools
